@@ -424,6 +424,11 @@ def check_helpers(case):
         R, U = onp.asarray(R), onp.asarray(U)
         data = dict(mode=mode, relgap=g, F=F.tolist(), cls=case['Fcls'])
         if not (onp.all(onp.isfinite(R)) and onp.all(onp.isfinite(U))):
+            if g < 1e-4:
+                with J['jax'].disable_jit():
+                    Re, Ue = [onp.asarray(o) for o in J['T'].right_polar_decomposition(np.array(F))]
+                data['fusion_only'] = bool(onp.all(onp.isfinite(Re)) and onp.all(onp.isfinite(Ue))
+                                           and onp.abs(Re @ Ue - F).max() <= 1e-10 * (w[0] / w[2]) * onp.abs(F).max())
             fails.append(Failure('polar-finite', 'polar decomposition non-finite (%s, %s)' % (mode, case['Fcls']), **data))
             continue
         c = w[0] / w[2]
